@@ -38,8 +38,18 @@ def main(argv):
     ctx = core.Ctx(pid, tier, seed)
     try:
         mod.run(ctx)
-    except Exception:
-        # a crash of the machinery is not a verdict about the property: exit 2
+    except Exception as e:
+        # an exception raised INSIDE /repo code, on an input the harness feeds it on every run of the unchanged tree, is a
+        # broken correspondence (the implementation no longer does what the model does there): reported as such
+        where = core.raised_in_repo(e)
+        if where:
+            traceback.print_exc()
+            last, caller = where
+            ctx.corr_mismatch("implementation-raised", {"harness_call": "%s:%d" % (os.path.basename(caller.filename), caller.lineno) if caller else "?"},
+                              "implementation raised %s: %s (at %s:%d in %s) during the correspondence run; the run stopped there" % (
+                                  type(e).__name__, str(e)[:200], os.path.relpath(last.filename, core.REPO), last.lineno, last.name))
+            return ctx.finish()
+        # any other crash of the machinery is not a verdict about the property: exit 2
         traceback.print_exc()
         print("harness error in %s (exit 2, no verdict)" % pid)
         return 2
